@@ -1298,8 +1298,11 @@ Section Rx.
           pose proof (write_solicited_nobcast _ _ _ _ _ _ Hb2 E3) as Hctl'.
           pose proof (write_solicited_conf _ _ _ _ _ _ E3) as (pre & -> & S3).
           pose proof (L12.write_solicited_spec _ _ _ _ _ _ E3) as ((Cn & Cc & Cl & _ & _ & Cd & _ & Cp & _) & _ & Hfn' & _).
-          clear E2 E3.
+          clear E2 E3. subst s1. psimpl_in Bn. psimpl_in Bc. psimpl_in Bl. psimpl_in Bd. psimpl_in Bp.
           assert (Hl3 : s_last s3 = Some l) by (rewrite Cl, Bl; exact Hl).
+          assert (Hn3 : s_now s3 = s_now s0) by (rewrite Cn, Bn; reflexivity).
+          assert (Hd3 : s_deferred s3 = s_deferred s0) by (rewrite Cd, Bd; reflexivity).
+          assert (Hp3 : s_pending s3 = s_pending s0) by (rewrite Cp, Bp; reflexivity).
           rewrite Hl3 in H.
           set (l' := {| lr_seq := lr_seq l; lr_bytes := lr_bytes l; lr_response := Some rsp'; lr_series := lr_series l |}) in *.
           set (s4 := upd_last s3 (Some l')) in *.
@@ -1316,7 +1319,7 @@ Section Rx.
             rewrite L12.ctl_byte_fir, L12.ctl_byte_seq, L12.ctl_byte_con, L12.ctl_byte_fin.
             rewrite (N.mod_small _ _ Hq'). fold q'. rewrite !N.eqb_refl. reflexivity. }
           assert (Hlast4 : g_last s4).
-          { intros x y Hx Hy. subst s4. psimpl_in Hx. inversion Hx; subst x. cbn [lr_response lr_bytes] in *.
+          { intros x y Hx Hy. subst s4 l'. psimpl_in Hx. inversion Hx; subst x. cbn [lr_response lr_bytes] in *.
             inversion Hy; subst y. split; [exact Hok'|]. intros X. rewrite (Hrd eq_refl) in X. discriminate. }
           assert (Hrun : forall (P : mst -> Prop), P m2 ->
                     ok m ([OInfo (ISolConfirmed (se_ecsn se))] ++ [ODb DbClearWritten] ++ o2 ++
@@ -1329,27 +1332,31 @@ Section Rx.
           destruct nc; subst next.
           -- inv_pair H. apply Hrun.
              split; [split; [exact Hlast4|split; [|split; [|split]]]|].
-             ++ intros x X. apply (Gd x). subst s4. psimpl_in X. congruence.
-             ++ intros a b c e f X. apply (Gp a b c e f). subst s4. psimpl_in X. congruence.
+             ++ intros x X. apply (Gd x). subst s4. psimpl_in X. rewrite <- Hd3. exact X.
+             ++ intros a b c e f X. apply (Gp a b c e f). subst s4. psimpl_in X. rewrite <- Hp3. exact X.
              ++ intros a b c e X. psimpl_in X. discriminate.
              ++ intros se0 dl0 rs0 X. psimpl_in X. inversion X; subst se0 dl0 rs0. cbn [se_ecsn se_fin].
                 split; [exact Hq'|]. exists l', rsp'. subst s4. psimpl. split; [reflexivity|]. split; [reflexivity|].
                 rewrite Hc'. unfold c_fin. rewrite L12.ctl_byte_seq, L12.ctl_byte_fin, L12.ctl_byte_con.
                 rewrite (N.mod_small _ _ Hq'). repeat split; auto.
              ++ split.
-                ** subst m2 mC s4. cbn [set_ph m_clock]. psimpl. congruence.
+                ** subst m2 mC s4. cbn [set_ph m_clock]. psimpl. rewrite Hn3. exact Hclk.
                 ** subst m2 mC s4. psimpl. cbn [set_ph m_ph se_ecsn se_fin]. unfold confirm_deadline. psimpl.
-                   rewrite Hclk. repeat f_equal. congruence.
+                   rewrite Hclk, Hn3. reflexivity.
           -- destruct (resume_at cfg (stage_of r) (upd_control s4 CIdle)) as [s5 o5] eqn:E5. inv_pair H.
-             rewrite !app_assoc. eapply okrun_app with (Q := fun x => x = m2).
-             { rewrite <- !app_assoc. apply Hrun. reflexivity. }
+             match goal with |- okrun _ _ _ ?L _ =>
+               replace L with (([OInfo (ISolConfirmed (se_ecsn se))] ++ [ODb DbClearWritten] ++ o2 ++
+                                pre ++ [OTx from (response_bytes rsp' (s_sol_buf s3))]) ++ o5)
+                 by (cbn [app]; rewrite <- ?app_assoc; reflexivity) end.
+             eapply okrun_app with (Q := fun x => x = m2).
+             { apply Hrun. reflexivity. }
              intros ? ->. eapply resume_at_good; [exact E5|reflexivity|].
              split; [split; [exact Hlast4|split; [|split; [|split]]]|].
-             ++ intros x X. apply (Gd x). subst s4. psimpl_in X. congruence.
-             ++ intros a b c e f X. apply (Gp a b c e f). subst s4. psimpl_in X. congruence.
+             ++ intros x X. apply (Gd x). subst s4. psimpl_in X. rewrite <- Hd3. exact X.
+             ++ intros a b c e f X. apply (Gp a b c e f). subst s4. psimpl_in X. rewrite <- Hp3. exact X.
              ++ apply g_uw_idle. reflexivity.
              ++ apply g_wait_idle. reflexivity.
-             ++ split; [|exact I]. subst m2 mC s4. cbn [set_ph m_clock]. psimpl. congruence.
+             ++ split; [|exact I]. subst m2 mC s4. cbn [set_ph m_clock]. psimpl. rewrite Hn3. exact Hclk.
       + (* anything else aborts the series *)
         subst o1.
         destruct (resume_at cfg (stage_of r) (upd_pending (upd_control s0 CIdle) (Some (from, bc, bytes, d, fid))))
